@@ -80,3 +80,60 @@ Qed.
 Lemma format_escaped_guard_exact str :
   exists b, format_escaped_guard str = Some b /\ (b = true <-> fmt_ok str).
 Proof. unfold format_escaped_guard. apply fmt_loop_spec. lia. Qed.
+
+(** * the automaton [fmt_dfa] of SpecMore.v accepts exactly the well-formed texts *)
+Lemma run_accept l : fold_left fmt_next l FAccept = FAccept.
+Proof. induction l as [|x l IH]; [reflexivity|exact IH]. Qed.
+Lemma run_fail l : fold_left fmt_next l FFail = FFail.
+Proof. induction l as [|x l IH]; [reflexivity|exact IH]. Qed.
+
+Lemma run_plain : forall l, fmt_run FPlain l =
+  match find_from 123 l with
+  | _ :: o2 :: after => if o2 =? 123 then fmt_run FEsc after else true
+  | _ => true
+  end.
+Proof.
+  induction l as [|x l IH]; [reflexivity|].
+  unfold fmt_run in *. cbn [find_from fold_left fmt_next]. destruct (x =? 123) eqn:E.
+  - destruct l as [|o2 after]; [reflexivity|]. cbn [fold_left fmt_next].
+    destruct (o2 =? 123); [reflexivity|]. rewrite run_accept. reflexivity.
+  - exact IH.
+Qed.
+
+Lemma run_esc : forall l, fmt_run FEsc l =
+  match find_from 125 l with
+  | _ :: c2 :: rest => if c2 =? 125 then fmt_run FPlain rest else false
+  | _ => false
+  end.
+Proof.
+  induction l as [|x l IH]; [reflexivity|].
+  unfold fmt_run in *. cbn [find_from fold_left fmt_next]. destruct (x =? 125) eqn:E.
+  - destruct l as [|c2 rest]; [reflexivity|]. cbn [fold_left fmt_next].
+    destruct (c2 =? 125); [reflexivity|]. rewrite run_fail. reflexivity.
+  - exact IH.
+Qed.
+
+Lemma fmt_loop_dfa : forall fuel first, (length first < fuel)%nat -> fmt_loop fuel first = Some (fmt_run FPlain first).
+Proof.
+  induction fuel as [|k IH]; intros first Hf; [lia|].
+  cbn [fmt_loop]. rewrite run_plain. unfold open_brace, close_brace.
+  destruct (find_from_spec 123 first) as (pre & Hsplit & _ & _).
+  destruct (find_from 123 first) as [|o1 [|o2 after]] eqn:Ef; [reflexivity|reflexivity|].
+  destruct (o2 =? 123); [|reflexivity].
+  rewrite run_esc.
+  destruct (find_from_spec 125 after) as (inner & Hs2 & _ & _).
+  destruct (find_from 125 after) as [|c1 [|c2 rest]] eqn:Ec; [reflexivity|reflexivity|].
+  destruct (c2 =? 125); [|reflexivity].
+  apply IH. rewrite Hsplit, Hs2 in Hf. rewrite !app_length in Hf. cbn [length] in Hf. rewrite app_length in Hf.
+  cbn [length] in Hf. lia.
+Qed.
+
+Lemma fmt_dfa_exact text : fmt_dfa text = true <-> fmt_ok text.
+Proof.
+  destruct (format_escaped_guard_exact text) as (b & Hb & Hiff).
+  unfold format_escaped_guard in Hb. rewrite (fmt_loop_dfa _ text) in Hb by lia.
+  inversion Hb as [Hb']. unfold fmt_dfa. rewrite Hb'. exact Hiff.
+Qed.
+
+Lemma format_escaped_guard_is_dfa text : format_escaped_guard text = Some (fmt_dfa text).
+Proof. unfold format_escaped_guard, fmt_dfa. apply fmt_loop_dfa. lia. Qed.
